@@ -401,6 +401,15 @@ def lenient_env(ip: Interp, fi, env: dict, stop_names=()):
                         run(getattr(s, fld, []) or [])
                 elif isinstance(s, (ast.Return, ast.Raise)):
                     continue
+                elif isinstance(s, ast.Assign) and isinstance(s.value, ast.IfExp):
+                    # `x = A if T else B` is read like `if T: x = A / else: x = B`
+                    import copy as _copy
+                    arms = []
+                    for v_ in (s.value.body, s.value.orelse):
+                        a_ = _copy.copy(s)
+                        a_.value = v_
+                        arms.append(a_)
+                    run([ast.copy_location(ast.If(test=s.value.test, body=[arms[0]], orelse=[arms[1]]), s)])
                 else:
                     ip.exec_block([s], fr)
             except DimMismatch:
